@@ -1016,6 +1016,15 @@ def reshape(a, *shape):
         if not dim_same(tot, n2):
             raise RuntimeError("shape '%s' is invalid for input of size %s" % (shape, tot))
     shape = Size(dim_simpl(d) for d in shape)
+    so = getattr(a, "_stack_of", None)
+    if so is not None and so[1] == 0 and isinstance(so[0], (list, tuple)) and len(shape) >= 1 and isinstance(shape[0], int) \
+            and shape[0] == len(so[0]) and a.kind == "opq":
+        # a stack reshaped below its leading axis is the stack of the reshaped rows
+        rows = [reshape(e, *shape[1:]) for e in so[0]]
+        r = Tensor("opq", a.v, shape, a.dtype)
+        r._stack_of = (rows, 0)
+        r._reshaped_from = a
+        return _taped("reshape", [a], r, lambda g: [reshape(g, a._shape)])
     if a.kind in ("sc", "bool", "opq", "par", "pb"):
         if a.kind == "opq":
             r = Tensor("opq", a.v, shape, a.dtype)
@@ -1196,9 +1205,47 @@ def expand(a, *shape):
     return Tensor(a.kind, a.v, out, a.dtype, va)
 
 
+def _record_pick(a, idx):
+    """reads that line up with the components of a concatenation / the rows of a stack give the component itself
+    (records packed into one flat tensor and unpacked again)"""
+    so = getattr(a, "_stack_of", None)
+    if so is not None and so[1] == 0 and len(idx) == 1 and isinstance(idx[0], int) and isinstance(so[0], (list, tuple)):
+        return so[0][idx[0]]
+    co = getattr(a, "_cat_of", None)
+    if co is None:
+        return None
+    parts, d = co
+    nd = len(a._shape)
+    items = list(idx)
+    if Ellipsis in items:
+        k = items.index(Ellipsis)
+        items[k:k + 1] = [slice(None)] * (nd - (len(items) - 1))
+    items = items + [slice(None)] * (nd - len(items))
+    if len(items) != nd or not all(isinstance(it, slice) for it in items):
+        return None
+    if any(items[j] != slice(None) for j in range(nd) if j != d):
+        return None
+    sl = items[d]
+    if sl.step not in (None, 1):
+        return None
+    lo = 0 if sl.start is None else sl.start
+    hi = a._shape[d] if sl.stop is None else sl.stop
+    off = 0
+    for part in parts:
+        nxt = dim_simpl(off + part._shape[d])
+        if dim_same(off, lo) and dim_same(nxt, hi):
+            return part
+        off = nxt
+    return None
+
+
 def getitem(a, idx):
     if not isinstance(idx, tuple):
         idx = (idx,)
+    if getattr(a, "_stack_of", None) is not None or getattr(a, "_cat_of", None) is not None:
+        r = _record_pick(a, idx)
+        if r is not None:
+            return r
     # boolean mask read is opaque
     if any(isinstance(i, Tensor) for i in idx):
         return _opaque_unary("maskread", a, shape=(SInt(z3.Int(ctx().fresh("nmask"))),), extra=idx)
